@@ -765,7 +765,56 @@ theorem dataPhase_spec (tk : TKind) (s : Script) (c : Sess) (hnd : c.acc.Nodup) 
     · exact hconst _ rfl
     · split
       · exact hconst _ (FCls.toCls_isOk _)
-      · exact (lmtpWalk_spec s r c.acc s.lmtpDrop hnd).2
+      · split
+        · exact hconst _ rfl
+        · exact (lmtpWalk_spec s r c.acc s.lmtpDrop hnd).2
+
+/-- **C01 (a body that cannot be read is never acknowledged).** When the spooled body cannot be
+opened or its reader fails before EOF, no target lets the final dot reach the next hop: the hop
+acknowledges nobody on that connection, and every accepted recipient gets a retryable error, unless
+the attempt ended earlier with the hop's own answer to the `DATA` command.  (This is what sending
+any command — `RSET`, `QUIT` — on a connection left in the middle of the message data would break:
+net/textproto would terminate the data first.) -/
+theorem C01_hop_body_fault_not_acked (tk : TKind) (s : Script) (c : Sess)
+    (hf : s.bodyOpenF = true ∨ s.bodyReadF = true) :
+    (dataPhase tk s c).2 = [] ∧
+    ∀ r ∈ c.acc, (lookupCls (dataPhase tk s c).1 r).isOk = false := by
+  have hcls : (dataCls s c).isOk = false := by
+    unfold dataCls
+    rcases hf with hf | hf
+    · simp [hf, Cls.isOk]
+    · split
+      · rfl
+      · split
+        · exact FCls.toCls_isOk _
+        · simp [hf, Cls.isOk]
+  have hsmtp : (c.acc.map (fun x => (x, dataCls s c)), if (dataCls s c).isOk then c.acc else []).2 = [] ∧
+      ∀ r ∈ c.acc, (lookupCls (c.acc.map (fun x => (x, dataCls s c)),
+        if (dataCls s c).isOk then c.acc else []).1 r).isOk = false := by
+    refine ⟨by simp [hcls], ?_⟩
+    intro r hr
+    simp only [lookupCls_map_const, hr, ↓reduceIte, hcls]
+  have hconst : ∀ cl : Cls, cl.isOk = false →
+      ∀ r ∈ c.acc, (lookupCls (c.acc.map (fun x => (x, cl))) r).isOk = false := by
+    intro cl hcl r hr
+    simp only [lookupCls_map_const, hr, ↓reduceIte, hcl]
+  cases tk with
+  | remote => exact hsmtp
+  | smtp => exact hsmtp
+  | lmtp =>
+    unfold dataPhase
+    simp only
+    split
+    · exact ⟨rfl, hconst _ rfl⟩
+    · rename_i h1
+      split
+      · exact ⟨rfl, hconst _ (FCls.toCls_isOk _)⟩
+      · split
+        · exact ⟨rfl, hconst _ rfl⟩
+        · rename_i h2
+          rcases hf with hf | hf
+          · simp [hf] at h1
+          · exact absurd hf h2
 
 def bodyOk (k : Kind) (p : Plan) (r : Addr) : Bool :=
   match k with
@@ -1055,6 +1104,23 @@ example :
       = [1] ∧
     reportCount 3
       (runHop 2 .remote true demoScript (fun _ => false) (fun _ => 0) 1 2 0 ⟨[1, 2, 3], fun _ => 0⟩).1
+      = 1 := by decide
+
+/-- Two recipients over target.smtp; in attempt 0 the body reader fails in the middle of the
+message data: nobody is acknowledged, both are retried and acknowledged once in attempt 1. With
+`maxTries = 1` both are reported instead. -/
+def demoBodyFault : Nat → Script := fun i =>
+  { mailN := 0, mailF := ⟨.temp, false⟩, limit := none, limF := ⟨.temp, false⟩, rej := fun _ => none,
+    dataCmd := none, dataEnd := none, lmtpSt := fun _ => none, lmtpDrop := none,
+    bodyReadF := decide (i = 0) }
+
+example :
+    (runHop 2 .smtp true demoBodyFault (fun _ => false) (fun _ => 0) 1 2 0 ⟨[1, 7], fun _ => 0⟩).2
+      = [1, 7] ∧
+    (runHop 1 .lmtp true demoBodyFault (fun _ => false) (fun _ => 0) 1 1 0 ⟨[1, 7], fun _ => 0⟩).2
+      = [] ∧
+    reportCount 7
+      (runHop 1 .lmtp true demoBodyFault (fun _ => false) (fun _ => 0) 1 1 0 ⟨[1, 7], fun _ => 0⟩).1
       = 1 := by decide
 
 /-- the hypotheses of `C01_hop_exactly_one_outcome` are satisfiable -/
